@@ -1,4 +1,5 @@
 """C20 — the dump lists every event of a compiled file at its true position: streams."""
+import re
 from ..core import Stream, hx, unhx, run_oracle, parse_resp
 from .. import gen, mml
 from .c02 import rich_source
@@ -17,16 +18,18 @@ TRUSTED = ["Spec.Dump (expected lines) is my reading of 'kind and values as writ
 def timed_source(rng):
     """one time signature, notes placed with TIME(m:b:t); deltas around 0x7F"""
     num = rng.choice([2, 3, 4, 5, 6, 7, 9, 12]); den = rng.choice([2, 4, 8, 16])
-    tb = rng.choice([48, 96, 96, 120, 480, 960])
+    tb = rng.choice([48, 96, 96, 120, 480, 960, 50, 49, 90, 100, 250])      # also time bases whose whole note is no multiple of the denominator
     parts = ["TimeBase(%d)" % tb, "TimeSignature(%d,%d)" % (num, den)]
     beat = 4 * tb // den
+    placed = []     # positions written with TIME(m:b:t) on the first track: the dump must list an event at each
     for tr in range(rng.choice([1, 1, 2, 3])):
         parts.append("TR(%d)" % tr)
         for _ in range(rng.randrange(1, 6)):
             r = rng.random()
             if r < 0.5:
                 m = rng.randint(1, 40); b = rng.randint(1, num); t = rng.randint(0, max(0, beat - 1))
-                parts.append("TIME(%d:%d:%d) %s" % (m, b, t, rng.choice(["c", "d8", "e2", "n60,4", "y7,100", "@3"])))
+                parts.append("TIME(%d:%d:%d) %s" % (m, b, t, rng.choice(["c", "d8", "e2", "n60,4", "y7,100;", "@3;"])))
+                if tr == 0: placed.append((m, b, t))
             elif r < 0.54:
                 # verbatim bytes of every channel-message kind (1- and 2-data-byte forms), followed by further events
                 parts.append(rng.choice(["DirectSMF($D0,$%02X)" % rng.randint(0, 127), "DirectSMF($C%X,%d)" % (rng.randint(0, 15), rng.randint(0, 127)),
@@ -44,6 +47,7 @@ def timed_source(rng):
                 parts.append("l%%%d q100 %s" % (rng.choice([127, 126, 128, 255, 16383, 16384, 2097151, 2097152, rng.randint(1, 300)]), rng.choice(["c d", "e r f", "g"])))
             else:
                 parts.append(mml.pr(mml.gen_cmds(rng, 1, rng.randrange(1, 4), top=False)))
+    timed_source.placed = placed
     return " ".join(parts)
 
 def streams(tier, rng, P, only=None, cases=None):
@@ -57,6 +61,13 @@ def streams(tier, rng, P, only=None, cases=None):
         if st != "ok":
             return ("violation", "dump did not return normally on a compiler output: " + st + " " + str(f)) if c.get("strict") else None
         if not m[0].startswith("ok holds=1"): return ("violation", "dump text disagrees with the decoded file: " + m[0])
+        # a note (or controller, program) placed with TIME(m:b:t) is listed at TIME(m:b:t)
+        if c.get("placed") and not re.search(r"(^|[ ;|\n])t[-+]?\d|t\.|t__|t=", c["src"]):      # (a timing command moves the notes after it off their written position)
+            text = unhx(f["text"]).decode("utf-8", "replace")
+            first = text.split("// ----- TRACK -----")[1] if "// ----- TRACK -----" in text else text
+            for (mm, bb, tt) in c["placed"]:
+                if ("TIME(%03d:%03d:%03d) " % (mm, bb, tt)) not in first:
+                    return ("violation", "nothing is listed at TIME(%d:%d:%d), where the source placed an event" % (mm, bb, tt))
         return None
     def nt(c, impl, m):
         t = impl[1].get("text", "") if impl[0] == "ok" else ""
@@ -66,7 +77,7 @@ def streams(tier, rng, P, only=None, cases=None):
         n = 1500 if big else 250
         for i in range(n):
             src = timed_source(rng) if i % 2 == 0 else rich_source(rng)
-            cs.append(dict(req="compile_dump " + hx(src), src=src, show=src, key="src%d" % i, strict=True))
+            cs.append(dict(req="compile_dump " + hx(src), src=src, show=src, key="src%d" % i, strict=True, placed=(list(timed_source.placed) if i % 2 == 0 else [])))
         for j, src in enumerate(mml.sample_sources()):
             cs.append(dict(req="compile_dump " + hx(src), src=src, show=src[:200], key="sample%d" % j, strict=True))
         for j, src in enumerate(["l%127 q100 c d", "l%16383 q100 c d e", "TimeSignature(3,8) TIME(5:2:10) c", "TR(2) l%127 c TR(1) TIME(2:1:0) d",
